@@ -1,5 +1,18 @@
 /-
 Property C05 — built instruction streams are well-formed (builder model Garnish.Model.Build, checker Garnish.Spec.WFProg).
+
+Main theorem (end of file): `C05_build_wf : build pf fuel root tree s0 = .ok (s, entry) → WFState s0 →
+  wfProg tree.size s0 s = true ∧ (tree.size ≠ 0 → entry < s.jumps.size)`, for every node vector, fuel and start state.
+Proof: an invariant threaded through every handler (`InvH`, inner loop) and through the outer loop (`InvR`):
+  * `DataOk`   every instruction / expression constant appended so far is fine w.r.t. the current tables (monotone in
+               the tables, so it is enough to check each push against the state it is pushed into), metadata and
+               instructions grow in lock-step and metadata names nodes below `tree.size`;
+  * `JOk`      every jump entry written by this build is ≤ the instruction count, and equal to it only while more
+               instructions are guaranteed: a root is pending on `root_stack`, or the current root has emitted nothing
+               yet (commit 3cee692 then forces its terminator);
+  * `NodesWF`  every build node names a parse node, an existing containing jump entry, and a terminator list that is
+               non-empty, fine as it stands and ends in `EndExpression`/`JumpTo` (`EndShape`);
+  * `EndsInTerm` after each root the stream ends in a terminator (commit 7afc7c5: only an `EndExpression` may be skipped).
 -/
 import Garnish.Lemmas.Build
 import Garnish.Spec.WFProg
@@ -124,18 +137,22 @@ theorem jOk_set {lo L : Nat} {p : Prop} {J : Array Nat} (h : JOk lo L p J) (i : 
 
 /-! ### build nodes -/
 
+/-- the shape of a terminator list: `[EndExpression]`, or a list ending in a `JumpTo` -/
+def EndShape (l : List Instr) : Prop :=
+  l = [(.endExpression, none)] ∨ ∃ (init : List Instr) (j : Nat), l = init ++ [(.jumpTo, some j)]
+
 /-- a build node refers to an existing parse node, an existing jump entry, and its terminator list is a non-empty
-list of instructions that are fine as they stand -/
+list of instructions that are fine as they stand and ends in a terminator -/
 def BnWF (jb n : Nat) (bn : BuildNode) : Prop :=
   bn.parseNodeIndex < n ∧ bn.containingExpressionJump < jb ∧
-  ∀ l, bn.rootEndInstruction = some l → l ≠ [] ∧ ∀ e, e ∈ l → instrOk jb (#[] : Array (Val Unit)) e = true
+  ∀ l, bn.rootEndInstruction = some l → l ≠ [] ∧ (∀ e, e ∈ l → instrOk jb (#[] : Array (Val Unit)) e = true) ∧ EndShape l
 
 def NodesWF (jb n : Nat) (nodes : Nodes) : Prop :=
   nodes.size = n ∧ ∀ (i : Nat) (bn : BuildNode), nodes[i]? = some (some bn) → BnWF jb n bn
 
 theorem bnWF_mono {jb jb' n : Nat} (hj : jb ≤ jb') {bn : BuildNode} (h : BnWF jb n bn) : BnWF jb' n bn :=
   ⟨h.1, by have := h.2.1; omega, fun l hl => ⟨(h.2.2 l hl).1, fun e he =>
-    instrOk_mono hj (Nat.le_refl _) (fun _ _ h => h) ((h.2.2 l hl).2 e he)⟩⟩
+    instrOk_mono hj (Nat.le_refl _) (fun _ _ h => h) ((h.2.2 l hl).2.1 e he), (h.2.2 l hl).2.2⟩⟩
 
 theorem nodesWF_mono {jb jb' n : Nat} (hj : jb ≤ jb') {nodes : Nodes} (h : NodesWF jb n nodes) : NodesWF jb' n nodes :=
   ⟨h.1, fun i bn hb => bnWF_mono hj (h.2 i bn hb)⟩
@@ -156,10 +173,11 @@ theorem bnWF_newWithConditional {jb n a c : Nat} (p : Nat) (ha : a < n) (hc : c 
 theorem bnWF_newWithJump {jb n a c : Nat} (j : Nat) (ha : a < n) (hc : c < jb) : BnWF jb n (BuildNode.newWithJump a c j) :=
   ⟨ha, hc, fun l hl => by simp [BuildNode.newWithJump, BuildNode.new] at hl⟩
 theorem bnWF_newWithJumpAndEnd {jb n a c : Nat} (j : Nat) {e : List Instr} (ha : a < n) (hc : c < jb) (he : e ≠ [])
-    (hi : ∀ x, x ∈ e → instrOk jb (#[] : Array (Val Unit)) x = true) : BnWF jb n (BuildNode.newWithJumpAndEnd a c j e) :=
+    (hs : EndShape e) (hi : ∀ x, x ∈ e → instrOk jb (#[] : Array (Val Unit)) x = true) :
+    BnWF jb n (BuildNode.newWithJumpAndEnd a c j e) :=
   ⟨ha, hc, fun l hl => by
     simp [BuildNode.newWithJumpAndEnd, BuildNode.new] at hl
-    subst hl; exact ⟨he, hi⟩⟩
+    subst hl; exact ⟨he, hi, hs⟩⟩
 
 theorem nodesWF_putNode {jb n : Nat} {nodes : Nodes} (h : NodesWF jb n nodes) (i : Nat) {b : BuildNode} (hb : BnWF jb n b) :
     NodesWF jb n (putNode nodes i b) := by
@@ -197,11 +215,12 @@ theorem getNode_wf {jb n : Nat} {nodes : Nodes} (h : NodesWF jb n nodes) (i : Na
 
 /-! ### the invariant of the inner loop (one root being emitted; `rs` = instruction count when the root started) -/
 
-structure InvH (b : Base) (rs : Nat) (ctx : Ctx F) : Prop where
+structure InvH (b : Base) (rs jlo : Nat) (ctx : Ctx F) : Prop where
   data : DataOk b ctx.data.instrs ctx.data.jumps ctx.data.consts ctx.data.metadata
   jok : JOk b.j0 ctx.data.instrs.size (0 < ctx.rootStack.size ∨ ctx.data.instrs.size = rs) ctx.data.jumps
   nodes : NodesWF ctx.data.jumps.size b.n ctx.nodes
   rsLe : rs ≤ ctx.data.instrs.size
+  jLe : jlo ≤ ctx.data.jumps.size
 
 macro "arith_tac" : tactic => `(tactic| (
   first
@@ -215,7 +234,7 @@ macro "side_tac" : tactic => `(tactic| (
     | assumption
     | (simp only [metaOk, decide_eq_true_eq]; first | assumption | exact (‹BnWF _ _ _›).1)
     | (simp only [instrOk, *]; done)
-    | (simp only [instrOk, *]; simp [Array.size_push]; done)
+    | (simp only [instrOk, *]; simp only [Array.size_push, decide_eq_true_eq]; omega)
     | (simp only [instrOk, opKind, decide_eq_true_eq]; exact (‹BnWF _ _ _›).2.1)
     | (simp [instrOk, opKind, constOk, Array.size_push]; done)
     | (simp [instrOk, opKind, constOk, Array.size_push, *]; done)
@@ -250,9 +269,9 @@ macro "wfbn_new" : tactic => `(tactic| (
     | exact bnWF_newWithList _ _ hlt (‹BnWF _ _ _›).2.1
     | exact bnWF_newWithConditional _ hlt (‹BnWF _ _ _›).2.1))
 
-macro "wf_final" : tactic => `(tactic| (
-  refine InvH.mk ?_ ?_ ?_ ?_ <;> (try dsimp only) <;>
-    first | data_tac | jok_tac | wfnodes_tac | (refine nodesWF_mono ?_ (by assumption); arith_tac) | arith_tac))
+macro "wf_final" jb:term : tactic => `(tactic| (
+  refine InvH.mk ?_ ?_ ?_ ?_ ?_ <;> (try dsimp only) <;>
+    first | data_tac | jok_tac | (wfnodes_tac; done) | (refine nodesWF_mono (jb := $jb) ?_ ?_; rotate_left; (· wfnodes_tac; done); arith_tac) | arith_tac))
 
 macro "wf_tac" b:term "," jb:term : tactic => `(tactic| (
   repeat' (first
@@ -260,100 +279,100 @@ macro "wf_tac" b:term "," jb:term : tactic => `(tactic| (
     | (refine sat_bind (setNodeIdx_wf (jb := $jb) (n := Base.n $b) ?_ _ ?_ _) (fun _ _ => ?_); (· wfnodes_tac); (· wfbn_new))
     | exact sat_buildErr
     | exact sat_panic
-    | wf_final
+    | wf_final $jb
     | simp only [bind_ok, bind_assoc]
     | split)))
 
 section handlersWF
-variable {b : Base} {rs : Nat} {ctx : Ctx F}
+variable {b : Base} {rs jlo : Nat} {ctx : Ctx F}
 
-theorem handleUnaryPrefix_wf (h : InvH b rs ctx) {ni : Nat} (hni : ni < b.n) {ins : Instruction} (hk : opKind ins = .free) (pn : ParseNode) :
-    Sat (InvH b rs) (handleUnaryPrefix ins ctx ni pn) := by
-  obtain ⟨hd, hj, hn, hr⟩ := h
+theorem handleUnaryPrefix_wf (h : InvH b rs jlo ctx) {ni : Nat} (hni : ni < b.n) {ins : Instruction} (hk : opKind ins = .free) (pn : ParseNode) :
+    Sat (InvH b rs jlo) (handleUnaryPrefix ins ctx ni pn) := by
+  obtain ⟨hd, hj, hn, hr, hjl⟩ := h
   unfold handleUnaryPrefix
   try simp only [pushInstr, pushToJumpTable, addConst, parseAddSymbol, getJumpTableLen, getInstructionLen]
   wf_tac b, ctx.data.jumps.size
 
 
-theorem handleUnarySuffix_wf (h : InvH b rs ctx) {ni : Nat} (hni : ni < b.n) {ins : Instruction} (hk : opKind ins = .free) (pn : ParseNode) :
-    Sat (InvH b rs) (handleUnarySuffix ins ctx ni pn) := by
-  obtain ⟨hd, hj, hn, hr⟩ := h
+theorem handleUnarySuffix_wf (h : InvH b rs jlo ctx) {ni : Nat} (hni : ni < b.n) {ins : Instruction} (hk : opKind ins = .free) (pn : ParseNode) :
+    Sat (InvH b rs jlo) (handleUnarySuffix ins ctx ni pn) := by
+  obtain ⟨hd, hj, hn, hr, hjl⟩ := h
   unfold handleUnarySuffix
   try simp only [pushInstr, pushToJumpTable, addConst, parseAddSymbol, getJumpTableLen, getInstructionLen]
   wf_tac b, ctx.data.jumps.size
 
-theorem handleBinaryOperationWithPush_wf (h : InvH b rs ctx) {ni : Nat} (hni : ni < b.n) {ins : Instruction} (hk : opKind ins = .free) (lr : Bool) (pn : ParseNode) :
-    Sat (InvH b rs) (handleBinaryOperationWithPush ins lr ctx ni pn) := by
-  obtain ⟨hd, hj, hn, hr⟩ := h
+theorem handleBinaryOperationWithPush_wf (h : InvH b rs jlo ctx) {ni : Nat} (hni : ni < b.n) {ins : Instruction} (hk : opKind ins = .free) (lr : Bool) (pn : ParseNode) :
+    Sat (InvH b rs jlo) (handleBinaryOperationWithPush ins lr ctx ni pn) := by
+  obtain ⟨hd, hj, hn, hr, hjl⟩ := h
   unfold handleBinaryOperationWithPush
   try simp only [pushInstr, pushToJumpTable, addConst, parseAddSymbol, getJumpTableLen, getInstructionLen]
   wf_tac b, ctx.data.jumps.size
 
-theorem handleList_wf (h : InvH b rs ctx) {ni : Nat} (hni : ni < b.n)  (pn : ParseNode) :
-    Sat (InvH b rs) (handleList  ctx ni pn) := by
-  obtain ⟨hd, hj, hn, hr⟩ := h
+theorem handleList_wf (h : InvH b rs jlo ctx) {ni : Nat} (hni : ni < b.n)  (pn : ParseNode) :
+    Sat (InvH b rs jlo) (handleList  ctx ni pn) := by
+  obtain ⟨hd, hj, hn, hr, hjl⟩ := h
   unfold handleList
   try simp only [pushInstr, pushToJumpTable, addConst, parseAddSymbol, getJumpTableLen, getInstructionLen]
   wf_tac b, ctx.data.jumps.size
 
-theorem handleGroup_wf (h : InvH b rs ctx) {ni : Nat} (hni : ni < b.n)  (pn : ParseNode) :
-    Sat (InvH b rs) (handleGroup  ctx ni pn) := by
-  obtain ⟨hd, hj, hn, hr⟩ := h
+theorem handleGroup_wf (h : InvH b rs jlo ctx) {ni : Nat} (hni : ni < b.n)  (pn : ParseNode) :
+    Sat (InvH b rs jlo) (handleGroup  ctx ni pn) := by
+  obtain ⟨hd, hj, hn, hr, hjl⟩ := h
   unfold handleGroup
   try simp only [pushInstr, pushToJumpTable, addConst, parseAddSymbol, getJumpTableLen, getInstructionLen]
   wf_tac b, ctx.data.jumps.size
 
-theorem handleSideEffect_wf (h : InvH b rs ctx) {ni : Nat} (hni : ni < b.n)  (pn : ParseNode) :
-    Sat (InvH b rs) (handleSideEffect  ctx ni pn) := by
-  obtain ⟨hd, hj, hn, hr⟩ := h
+theorem handleSideEffect_wf (h : InvH b rs jlo ctx) {ni : Nat} (hni : ni < b.n)  (pn : ParseNode) :
+    Sat (InvH b rs jlo) (handleSideEffect  ctx ni pn) := by
+  obtain ⟨hd, hj, hn, hr, hjl⟩ := h
   unfold handleSideEffect
   try simp only [pushInstr, pushToJumpTable, addConst, parseAddSymbol, getJumpTableLen, getInstructionLen]
   wf_tac b, ctx.data.jumps.size
 
-theorem handleReapply_wf (h : InvH b rs ctx) {ni : Nat} (hni : ni < b.n)  (pn : ParseNode) :
-    Sat (InvH b rs) (handleReapply  ctx ni pn) := by
-  obtain ⟨hd, hj, hn, hr⟩ := h
+theorem handleReapply_wf (h : InvH b rs jlo ctx) {ni : Nat} (hni : ni < b.n)  (pn : ParseNode) :
+    Sat (InvH b rs jlo) (handleReapply  ctx ni pn) := by
+  obtain ⟨hd, hj, hn, hr, hjl⟩ := h
   unfold handleReapply
   try simp only [pushInstr, pushToJumpTable, addConst, parseAddSymbol, getJumpTableLen, getInstructionLen]
   wf_tac b, ctx.data.jumps.size
 
-theorem handleSubexpression_wf (h : InvH b rs ctx) {ni : Nat} (hni : ni < b.n)  (pn : ParseNode) :
-    Sat (InvH b rs) (handleSubexpression  ctx ni pn) := by
-  obtain ⟨hd, hj, hn, hr⟩ := h
+theorem handleSubexpression_wf (h : InvH b rs jlo ctx) {ni : Nat} (hni : ni < b.n)  (pn : ParseNode) :
+    Sat (InvH b rs jlo) (handleSubexpression  ctx ni pn) := by
+  obtain ⟨hd, hj, hn, hr, hjl⟩ := h
   unfold handleSubexpression
   try simp only [pushInstr, pushToJumpTable, addConst, parseAddSymbol, getJumpTableLen, getInstructionLen]
   wf_tac b, ctx.data.jumps.size
 
-theorem handleInfixApply_wf (h : InvH b rs ctx) {ni : Nat} (hni : ni < b.n)  (pn : ParseNode) :
-    Sat (InvH b rs) (handleInfixApply  ctx ni pn) := by
-  obtain ⟨hd, hj, hn, hr⟩ := h
+theorem handleInfixApply_wf (h : InvH b rs jlo ctx) {ni : Nat} (hni : ni < b.n)  (pn : ParseNode) :
+    Sat (InvH b rs jlo) (handleInfixApply  ctx ni pn) := by
+  obtain ⟨hd, hj, hn, hr, hjl⟩ := h
   unfold handleInfixApply
   try simp only [pushInstr, pushToJumpTable, addConst, parseAddSymbol, getJumpTableLen, getInstructionLen]
   wf_tac b, ctx.data.jumps.size
 
-theorem handleUnaryFixApply_wf (h : InvH b rs ctx) {ni : Nat} (hni : ni < b.n) (child : Option Nat) (pn : ParseNode) :
-    Sat (InvH b rs) (handleUnaryFixApply child ctx ni pn) := by
-  obtain ⟨hd, hj, hn, hr⟩ := h
+theorem handleUnaryFixApply_wf (h : InvH b rs jlo ctx) {ni : Nat} (hni : ni < b.n) (child : Option Nat) (pn : ParseNode) :
+    Sat (InvH b rs jlo) (handleUnaryFixApply child ctx ni pn) := by
+  obtain ⟨hd, hj, hn, hr, hjl⟩ := h
   unfold handleUnaryFixApply
   try simp only [pushInstr, pushToJumpTable, addConst, parseAddSymbol, getJumpTableLen, getInstructionLen]
   wf_tac b, ctx.data.jumps.size
 
 
-theorem handleNestedExpression_wf (h : InvH b rs ctx) {ni : Nat} (hni : ni < b.n) {crj : Nat} (hcrj : crj < ctx.data.jumps.size)
-    (pn : ParseNode) : Sat (InvH b rs) (handleNestedExpression ctx crj ni pn) := by
-  obtain ⟨hd, hj, hn, hr⟩ := h
+theorem handleNestedExpression_wf (h : InvH b rs jlo ctx) {ni : Nat} (hni : ni < b.n) {crj : Nat} (hcrj : crj < ctx.data.jumps.size)
+    (pn : ParseNode) : Sat (InvH b rs jlo) (handleNestedExpression ctx crj ni pn) := by
+  obtain ⟨hd, hj, hn, hr, hjl⟩ := h
   unfold handleNestedExpression
   simp only [pushInstr, pushToJumpTable, addConst, getJumpTableLen]
   split
-  · wf_final
+  · wf_final ctx.data.jumps.size
   · have hn' := nodesWF_mono (jb' := ctx.data.jumps.size + 1) (by omega) hn
     refine sat_bind (setNodeIdx_wf hn' _ (fun hlt => bnWF_newWithJump _ hlt (by omega)) _) (fun nodes hnodes => ?_)
     have hnodes' : NodesWF (ctx.data.jumps.push 0).size b.n nodes := by simpa using hnodes
-    wf_final
+    wf_final ctx.data.jumps.size
 
-theorem handleLogicalBinary_wf (h : InvH b rs ctx) {ni : Nat} (hni : ni < b.n) {ins : Instruction} (hk : opKind ins = .jump)
-    (pn : ParseNode) : Sat (InvH b rs) (handleLogicalBinary ins ctx ni pn) := by
-  obtain ⟨hd, hj, hn, hr⟩ := h
+theorem handleLogicalBinary_wf (h : InvH b rs jlo ctx) {ni : Nat} (hni : ni < b.n) {ins : Instruction} (hk : opKind ins = .jump)
+    (pn : ParseNode) : Sat (InvH b rs jlo) (handleLogicalBinary ins ctx ni pn) := by
+  obtain ⟨hd, hj, hn, hr, hjl⟩ := h
   unfold handleLogicalBinary
   simp only [pushInstr, pushToJumpTable, getJumpTableLen, getInstructionLen]
   refine sat_bind (getNode_wf hn _) (fun node hnode => ?_)
@@ -363,18 +382,18 @@ theorem handleLogicalBinary_wf (h : InvH b rs ctx) {ni : Nat} (hni : ni < b.n) {
     · exact sat_buildErr
     · have hn' := nodesWF_mono (jb' := ctx.data.jumps.size + 2) (by omega) hn
       have hc := hnode.2.1
-      refine sat_bind (setNodeIdx_wf hn' _ (fun hlt => bnWF_newWithJumpAndEnd _ hlt (by omega) (by simp) ?_) _)
-        (fun nodes hnodes => ?_)
+      refine sat_bind (setNodeIdx_wf hn' _ (fun hlt => bnWF_newWithJumpAndEnd _ hlt (by omega) (by simp)
+        (Or.inr ⟨[(.tis, none)], _, rfl⟩) ?_) _) (fun nodes hnodes => ?_)
       · intro x hx
-        simp only [List.mem_cons, List.mem_nil_iff, or_false] at hx
+        simp only [List.mem_cons, List.mem_append, List.mem_nil_iff, or_false, false_or] at hx
         rcases hx with hx | hx <;> subst hx <;> simp [instrOk, opKind, Array.size_push]
       · have hnodes' : NodesWF ((ctx.data.jumps.push 0).push (ctx.data.instrs.push (ins, some ctx.data.jumps.size)).size).size b.n nodes := by
           simpa using hnodes
-        wf_final
+        wf_final ctx.data.jumps.size
 
-theorem handleJumpIf_wf (h : InvH b rs ctx) {ni : Nat} (hni : ni < b.n) {ins : Instruction} (hk : opKind ins = .jump)
-    (pn : ParseNode) : Sat (InvH b rs) (handleJumpIf ins ctx ni pn) := by
-  obtain ⟨hd, hj, hn, hr⟩ := h
+theorem handleJumpIf_wf (h : InvH b rs jlo ctx) {ni : Nat} (hni : ni < b.n) {ins : Instruction} (hk : opKind ins = .jump)
+    (pn : ParseNode) : Sat (InvH b rs jlo) (handleJumpIf ins ctx ni pn) := by
+  obtain ⟨hd, hj, hn, hr, hjl⟩ := h
   unfold handleJumpIf
   simp only [pushInstr, pushToJumpTable, getJumpTableLen, getInstructionLen]
   refine sat_bind (getNode_wf hn _) (fun node hnode => ?_)
@@ -386,20 +405,646 @@ theorem handleJumpIf_wf (h : InvH b rs ctx) {ni : Nat} (hni : ni < b.n) {ins : I
       · split
         · rename_i parent hparent
           have hp : BnWF ctx.data.jumps.size b.n parent := hn.2 _ _ hparent
-          wf_final
-        · wf_final
+          wf_final ctx.data.jumps.size
+        · wf_final ctx.data.jumps.size
       · have hn' := nodesWF_mono (jb' := ctx.data.jumps.size + 2) (by omega) hn
         have hc := hnode.2.1
-        refine sat_bind (setNodeIdx_wf hn' _ (fun hlt => bnWF_newWithJumpAndEnd _ hlt (by omega) (by simp) ?_) _)
-          (fun nodes hnodes => ?_)
+        refine sat_bind (setNodeIdx_wf hn' _ (fun hlt => bnWF_newWithJumpAndEnd _ hlt (by omega) (by simp)
+          (Or.inr ⟨[], _, rfl⟩) ?_) _) (fun nodes hnodes => ?_)
         · intro x hx
-          simp only [List.mem_cons, List.mem_nil_iff, or_false] at hx
+          simp only [List.mem_cons, List.mem_append, List.mem_nil_iff, or_false, false_or] at hx
           subst hx; simp [instrOk, opKind, Array.size_push]
         · have hnodes' : NodesWF ((ctx.data.jumps.push 0).push
               ((ctx.data.instrs.push (ins, some ctx.data.jumps.size)).push (.putValue, none)).size).size b.n nodes := by
             simpa using hnodes
-          wf_final
+          wf_final ctx.data.jumps.size
+
+
+theorem elseJumpItems_wf {jb n : Nat} (containing jumpToIndex : Nat) (hc : containing < jb) (hj : jumpToIndex < jb) :
+    ∀ (items : List ConditionItem) (rootStack : Array Nat) (newItems : Array (Nat × BuildNode)),
+      (∀ p, p ∈ newItems.toList → p.1 < n → BnWF jb n p.2) →
+      (∀ p, p ∈ (elseJumpItems containing jumpToIndex items rootStack newItems).2.toList → p.1 < n → BnWF jb n p.2) ∧
+      (elseJumpItems containing jumpToIndex items rootStack newItems).1.size = rootStack.size + items.length := by
+  intro items
+  induction items with
+  | nil => intro rs ni h2; exact ⟨by simpa [elseJumpItems] using h2, by simp [elseJumpItems]⟩
+  | cons c rest ih =>
+    intro rs ni h2
+    simp only [elseJumpItems]
+    have := ih (rs.push c.nodeIndex) (ni.push (c.nodeIndex,
+      BuildNode.newWithJumpAndEnd c.nodeIndex containing c.jumpIndexToUpdate [(.jumpTo, some jumpToIndex)])) (by
+        intro p hp hlt
+        simp only [Array.toList_push, List.mem_append, List.mem_singleton] at hp
+        rcases hp with hp | hp
+        · exact h2 p hp hlt
+        · subst hp
+          refine bnWF_newWithJumpAndEnd _ hlt hc (by simp) (Or.inr ⟨[], _, rfl⟩) ?_
+          intro x hx
+          simp only [List.mem_cons, List.mem_nil_iff, or_false] at hx
+          subst hx
+          simp [instrOk, opKind, hj])
+    refine ⟨this.1, ?_⟩
+    rw [this.2]
+    simp only [Array.size_push, List.length_cons]
+    omega
+
+theorem assignNewItems_wf {jb n : Nat} : ∀ (items : List (Nat × BuildNode)) (nodes : Nodes), NodesWF jb n nodes →
+    (∀ p, p ∈ items → p.1 < n → BnWF jb n p.2) → Sat (NodesWF jb n) (assignNewItems nodes items) := by
+  intro items
+  induction items with
+  | nil => intro nodes hn _; simpa [assignNewItems] using hn
+  | cons p rest ih =>
+    intro nodes hn hp
+    obtain ⟨index, bn⟩ := p
+    simp only [assignNewItems]
+    refine sat_bind (setNodeIdx_wf hn _ (hp (index, bn) List.mem_cons_self) _) (fun nodes' hn' => ?_)
+    exact ih nodes' hn' (fun q hq => hp q (List.mem_cons_of_mem _ hq))
+
+theorem handleElseJump_wf (h : InvH b rs jlo ctx) {ni : Nat} (hni : ni < b.n) (pn : ParseNode) :
+    Sat (InvH b rs jlo) (handleElseJump ctx ni pn) := by
+  obtain ⟨hd, hj, hn, hr, hjl⟩ := h
+  unfold handleElseJump
+  simp only [pushInstr, pushToJumpTable, getJumpTableLen, getInstructionLen]
+  refine sat_bind (getNode_wf hn _) (fun node hnode => ?_)
+  split
+  · wf_tac b, ctx.data.jumps.size
+  · split
+    · wf_final ctx.data.jumps.size
+    · split
+      · rename_i hpos
+        generalize heq : elseJumpItems node.containingExpressionJump ctx.data.jumps.size
+          node.conditionalItems.toList ctx.rootStack #[] = r
+        obtain ⟨rootStack, newItems⟩ := r
+        dsimp only
+        have hn' := nodesWF_mono (jb' := ctx.data.jumps.size + 1) (by omega) hn
+        have hc := hnode.2.1
+        have key := elseJumpItems_wf (jb := ctx.data.jumps.size + 1) (n := b.n) node.containingExpressionJump ctx.data.jumps.size
+          (by omega) (by omega) node.conditionalItems.toList ctx.rootStack #[] (by simp)
+        rw [heq] at key
+        have hrs : 0 < rootStack.size := by
+          have := key.2
+          simp only [Array.length_toList] at this
+          omega
+        refine sat_bind (assignNewItems_wf _ _ hn' key.1) (fun nodes hnodes => ?_)
+        have hnodes' : NodesWF (ctx.data.jumps.push ctx.data.instrs.size).size b.n nodes := by simpa using hnodes
+        wf_final ctx.data.jumps.size
+      · wf_final ctx.data.jumps.size
+
+/-! value arms -/
+
+/-- what an `add_fn` closure does to the state: nothing, or one more constant that is not an expression; and the
+operand it returns suits the instruction it is used with -/
+def AddOk (ins : Instruction) (addFn : AddFn F) : Prop :=
+  ∀ (d : BState F) (pn : ParseNode), Sat (fun r =>
+    instrOk r.1.jumps.size r.1.consts (ins, r.2) = true ∧
+    (r.1 = d ∨ ∃ v, constOk 0 v = true ∧ r.1 = { d with consts := d.consts.push v })) (addFn d pn)
+
+theorem constOk_zero {v : Val F} (h : constOk 0 v = true) (jb : Nat) : constOk jb v = true := constOk_mono (Nat.zero_le _) h
+
+theorem handleValueLike_wf (h : InvH b rs jlo ctx) {ni : Nat} (hni : ni < b.n) {ins : Instruction} {addFn : AddFn F}
+    (ha : AddOk ins addFn) (pn : ParseNode) : Sat (InvH b rs jlo) (handleValueLike addFn ins ctx ni pn) := by
+  obtain ⟨hd, hj, hn, hr, hjl⟩ := h
+  unfold handleValueLike
+  simp only [pushInstr]
+  refine sat_bind (getNode_wf hn _) (fun node hnode => ?_)
+  split
+  · wf_tac b, ctx.data.jumps.size
+  · refine sat_bind (ha ctx.data pn) (fun r hr' => ?_)
+    obtain ⟨data, o⟩ := r
+    obtain ⟨hi, hcase⟩ := hr'
+    dsimp only at hi hcase ⊢
+    rcases hcase with hcase | ⟨v, hv, hcase⟩
+    · subst hcase
+      wf_final data.jumps.size
+    · subst hcase
+      dsimp only at hi ⊢
+      have hv' := constOk_zero hv ctx.data.jumps.size
+      wf_final ctx.data.jumps.size
+
+
+/-- an `add_fn` of `handle_value_primitive`: appends exactly one constant that is not an expression and returns its index -/
+def Add1 (addFn : BState F → ParseNode → Outcome (BState F × Nat)) : Prop :=
+  ∀ (d : BState F) (pn : ParseNode), Sat (fun r => ∃ v, constOk 0 v = true ∧
+    r = (({ d with consts := d.consts.push v } : BState F), d.consts.size)) (addFn d pn)
+
+theorem handleValuePrimitive_wf (h : InvH b rs jlo ctx) {ni : Nat} (hni : ni < b.n)
+    {addFn : BState F → ParseNode → Outcome (BState F × Nat)} (ha : Add1 addFn) (pn : ParseNode) :
+    Sat (InvH b rs jlo) (handleValuePrimitive addFn ctx ni pn) := by
+  unfold handleValuePrimitive
+  apply handleValueLike_wf h hni
+  intro d pn
+  refine sat_bind (ha d pn) (fun r hr => ?_)
+  obtain ⟨v, hv, hr⟩ := hr
+  subst hr
+  simp only [sat_ok]
+  exact ⟨by simp [instrOk, opKind], Or.inr ⟨v, hv, rfl⟩⟩
+
+theorem handleBinaryOperation_wf (h : InvH b rs jlo ctx) {ni : Nat} (hni : ni < b.n) {ins : Instruction} (hk : opKind ins = .free)
+    (pn : ParseNode) : Sat (InvH b rs jlo) (handleBinaryOperation ins ctx ni pn) :=
+  handleBinaryOperationWithPush_wf h hni hk false pn
+
+theorem addUnit_add1 : Add1 (addUnit : BState F → ParseNode → Outcome (BState F × Nat)) := fun _ _ => ⟨.unit, rfl, rfl⟩
+theorem addFalse_add1 : Add1 (addFalse : BState F → ParseNode → Outcome (BState F × Nat)) := fun _ _ => ⟨.fls, rfl, rfl⟩
+theorem addTrue_add1 : Add1 (addTrue : BState F → ParseNode → Outcome (BState F × Nat)) := fun _ _ => ⟨.tru, rfl, rfl⟩
+
+variable (parseFloat : List Char → Option F)
+
+theorem parseAddNumber_add1 : Add1 (parseAddNumber parseFloat) := by
+  intro d pn
+  unfold parseAddNumber
+  exact sat_bind sat_true (fun n _ => ⟨.num n, rfl, rfl⟩)
+theorem parseAddCharList_add1 : Add1 (parseAddCharList parseFloat) := by
+  intro d pn
+  unfold parseAddCharList
+  exact sat_bind sat_true (fun n _ => ⟨.chars _, rfl, rfl⟩)
+theorem parseAddByteList_add1 : Add1 (parseAddByteList parseFloat) := by
+  intro d pn
+  unfold parseAddByteList
+  exact sat_bind sat_true (fun n _ => ⟨.bytes _, rfl, rfl⟩)
+theorem parseAddSymbolLiteral_add1 : Add1 (parseAddSymbolLiteral : BState F → ParseNode → Outcome (BState F × Nat)) := by
+  intro d pn
+  unfold parseAddSymbolLiteral
+  split
+  · exact sat_panic
+  · exact ⟨.sym _, rfl, rfl⟩
+
+theorem parseAddSymbolText_addOk_resolve : AddOk .resolve (parseAddSymbolText : AddFn F) := by
+  intro d pn
+  simp only [parseAddSymbolText, parseAddSymbol, addConst, sat_ok]
+  exact ⟨by simp [instrOk, opKind], Or.inr ⟨.sym _, rfl, rfl⟩⟩
+theorem parseAddSymbolText_addOk_put : AddOk .put (parseAddSymbolText : AddFn F) := by
+  intro d pn
+  simp only [parseAddSymbolText, parseAddSymbol, addConst, sat_ok]
+  exact ⟨by simp [instrOk, opKind], Or.inr ⟨.sym _, rfl, rfl⟩⟩
+theorem noOperand_addOk {ins : Instruction} (hk : opKind ins = .free) :
+    AddOk ins (fun (data : BState F) (_ : ParseNode) => Outcome.ok (data, (none : Option Nat))) := by
+  intro d pn
+  show _ ∧ _
+  exact ⟨by simp [instrOk, hk], Or.inl rfl⟩
+
+theorem handleParseNode_wf (h : InvH b rs jlo ctx) {ni : Nat} (hni : ni < b.n) {crj : Nat} (hcrj : crj < ctx.data.jumps.size)
+    (pn : ParseNode) : Sat (InvH b rs jlo) (handleParseNode parseFloat ctx crj ni pn) := by
+  unfold handleParseNode
+  split
+  · exact handleValuePrimitive_wf h hni addUnit_add1 pn
+  · exact handleValuePrimitive_wf h hni addFalse_add1 pn
+  · exact handleValuePrimitive_wf h hni addTrue_add1 pn
+  · exact handleValuePrimitive_wf h hni (parseAddNumber_add1 parseFloat) pn
+  · exact handleValuePrimitive_wf h hni (parseAddCharList_add1 parseFloat) pn
+  · exact handleValuePrimitive_wf h hni (parseAddByteList_add1 parseFloat) pn
+  · exact handleValuePrimitive_wf h hni parseAddSymbolLiteral_add1 pn
+  · exact handleValueLike_wf h hni (noOperand_addOk rfl) pn
+  · exact handleValueLike_wf h hni parseAddSymbolText_addOk_resolve pn
+  · exact handleValueLike_wf h hni parseAddSymbolText_addOk_put pn
+  · exact handleValueLike_wf h hni (noOperand_addOk rfl) pn
+  · exact handleUnaryPrefix_wf h hni rfl pn
+  · exact handleUnaryPrefix_wf h hni rfl pn
+  · exact handleUnaryPrefix_wf h hni rfl pn
+  · exact handleUnaryPrefix_wf h hni rfl pn
+  · exact handleUnaryPrefix_wf h hni rfl pn
+  · exact handleUnaryPrefix_wf h hni rfl pn
+  · exact handleUnaryPrefix_wf h hni rfl pn
+  · exact handleUnarySuffix_wf h hni rfl pn
+  · exact handleUnarySuffix_wf h hni rfl pn
+  · exact handleUnarySuffix_wf h hni rfl pn
+  · exact handleBinaryOperation_wf h hni rfl pn
+  · exact handleBinaryOperation_wf h hni rfl pn
+  · exact handleBinaryOperation_wf h hni rfl pn
+  · exact handleBinaryOperation_wf h hni rfl pn
+  · exact handleBinaryOperation_wf h hni rfl pn
+  · exact handleBinaryOperation_wf h hni rfl pn
+  · exact handleBinaryOperation_wf h hni rfl pn
+  · exact handleBinaryOperation_wf h hni rfl pn
+  · exact handleBinaryOperation_wf h hni rfl pn
+  · exact handleBinaryOperation_wf h hni rfl pn
+  · exact handleBinaryOperation_wf h hni rfl pn
+  · exact handleBinaryOperation_wf h hni rfl pn
+  · exact handleBinaryOperation_wf h hni rfl pn
+  · exact handleBinaryOperation_wf h hni rfl pn
+  · exact handleBinaryOperation_wf h hni rfl pn
+  · exact handleBinaryOperation_wf h hni rfl pn
+  · exact handleBinaryOperation_wf h hni rfl pn
+  · exact handleBinaryOperation_wf h hni rfl pn
+  · exact handleBinaryOperation_wf h hni rfl pn
+  · exact handleBinaryOperation_wf h hni rfl pn
+  · exact handleBinaryOperation_wf h hni rfl pn
+  · exact handleBinaryOperation_wf h hni rfl pn
+  · exact handleBinaryOperation_wf h hni rfl pn
+  · exact handleBinaryOperation_wf h hni rfl pn
+  · exact handleBinaryOperation_wf h hni rfl pn
+  · exact handleBinaryOperation_wf h hni rfl pn
+  · exact handleBinaryOperation_wf h hni rfl pn
+  · exact handleBinaryOperation_wf h hni rfl pn
+  · exact handleBinaryOperation_wf h hni rfl pn
+  · exact handleBinaryOperationWithPush_wf h hni rfl _ pn
+  · exact handleBinaryOperationWithPush_wf h hni rfl _ pn
+  · exact handleList_wf h hni pn
+  · exact handleList_wf h hni pn
+  · exact handleLogicalBinary_wf h hni rfl pn
+  · exact handleLogicalBinary_wf h hni rfl pn
+  · exact handleGroup_wf h hni pn
+  · exact handleSideEffect_wf h hni pn
+  · exact handleNestedExpression_wf h hni hcrj pn
+  · exact handleJumpIf_wf h hni rfl pn
+  · exact handleJumpIf_wf h hni rfl pn
+  · exact handleElseJump_wf h hni pn
+  · exact handleReapply_wf h hni pn
+  · exact handleSubexpression_wf h hni pn
+  · exact handleSubexpression_wf h hni pn
+  · exact handleUnaryFixApply_wf h hni _ pn
+  · exact handleUnaryFixApply_wf h hni _ pn
+  · exact handleInfixApply_wf h hni pn
+  · exact sat_buildErr
+
+
+/-! ### the loops -/
+
+theorem afterHandle_wf {jb n : Nat} {nodes : Nodes} (hn : NodesWF jb n nodes) (ni : Nat) : Sat (NodesWF jb n) (afterHandle nodes ni) := by
+  unfold afterHandle
+  split
+  · rename_i node hnode
+    have hb : BnWF jb n node := hn.2 _ _ hnode
+    split
+    · split
+      · have h1 : NodesWF jb n (putNode nodes ni { node with contributesToList := false }) :=
+          nodesWF_putNode hn _ (bnWF_congr hb rfl rfl rfl)
+        refine sat_bind (getNode_wf h1 _) (fun parentNode hp => ?_)
+        exact nodesWF_putNode h1 _ (bnWF_congr hp rfl rfl rfl)
+      · exact hn
+    · exact hn
+  · exact hn
+
+theorem getElem?_some_lt {α : Type} {a : Array α} {i : Nat} {x : α} (h : a[i]? = some x) : i < a.size := by
+  rcases Nat.lt_or_ge i a.size with h1 | h1
+  · exact h1
+  · rw [Array.getElem?_eq_none h1] at h; cases h
+
+theorem innerLoop_wf (parseTree : Array ParseNode) (hb : b.n = parseTree.size) {crj : Nat} (hcrj : crj < jlo) :
+    ∀ (stepFuel : Nat) (ctx : Ctx F), InvH b rs jlo ctx →
+      Sat (fun r => InvH b rs jlo r.1) (innerLoop parseFloat parseTree crj stepFuel ctx) := by
+  intro stepFuel
+  induction stepFuel with
+  | zero => intro ctx _; exact sat_fuelOut
+  | succ k ih =>
+    intro ctx h
+    unfold innerLoop
+    split
+    · exact h
+    · split
+      · exact sat_buildErr
+      · rename_i pn hpn
+        have h' : InvH b rs jlo ({ ctx with stack := ctx.stack.pop } : Ctx F) := ⟨h.data, h.jok, h.nodes, h.rsLe, h.jLe⟩
+        have hni := hb ▸ getElem?_some_lt hpn
+        have hc : crj < ({ ctx with stack := ctx.stack.pop } : Ctx F).data.jumps.size := Nat.lt_of_lt_of_le hcrj h.jLe
+        refine sat_bind (handleParseNode_wf parseFloat h' hni hc pn) (fun ctx1 h1 => ?_)
+        refine sat_bind (afterHandle_wf h1.nodes _) (fun nodes hnodes => ?_)
+        exact ih _ ⟨h1.data, h1.jok, hnodes, h1.rsLe, h1.jLe⟩
+
+/-- the stream ends in `EndExpression` or `JumpTo` -/
+def EndsInTerm (d : BState F) : Prop := ∃ i, d.instrs.back? = some i ∧ isTerminator i = true
+
+/-- the invariant at the head of the outer loop -/
+structure InvR (b : Base) (ctx : Ctx F) : Prop where
+  data : DataOk b ctx.data.instrs ctx.data.jumps ctx.data.consts ctx.data.metadata
+  jok : JOk b.j0 ctx.data.instrs.size (0 < ctx.rootStack.size) ctx.data.jumps
+  nodes : NodesWF (max ctx.data.jumps.size (b.j0 + 1)) b.n ctx.nodes
+  first : b.j0 < ctx.data.jumps.size ∨
+    ∃ r bn, ctx.rootStack.back? = some r ∧ ctx.nodes[r]? = some (some bn) ∧ bn.jumpIndexToUpdate = none
+  jlo : b.j0 ≤ ctx.data.jumps.size
+  term : EndsInTerm ctx.data ∨ ∃ r, ctx.rootStack.back? = some r
+
+/-- what `rootJump` establishes -/
+structure RootJumpPost (b : Base) (d0 : BState F) (r : BState F × Nat) : Prop where
+  dataOk : DataOk b r.1.instrs r.1.jumps r.1.consts r.1.metadata
+  jok : JOk b.j0 r.1.instrs.size True r.1.jumps
+  crj : r.2 < r.1.jumps.size
+  j0 : b.j0 < r.1.jumps.size
+  instrsEq : r.1.instrs = d0.instrs
+  mono : d0.jumps.size ≤ r.1.jumps.size
+
+theorem rootJump_wf {data : BState F} {nodes : Nodes} {p : Prop}
+    (hd : DataOk b data.instrs data.jumps data.consts data.metadata) (hj : JOk b.j0 data.instrs.size p data.jumps)
+    (hjlo : b.j0 ≤ data.jumps.size) (rootIndex : Nat)
+    (hfirst : b.j0 < data.jumps.size ∨ ∃ bn, nodes[rootIndex]? = some (some bn) ∧ bn.jumpIndexToUpdate = none) :
+    Sat (RootJumpPost b data) (rootJump data nodes rootIndex) := by
+  have hj' : JOk b.j0 data.instrs.size True data.jumps := jOk_mono hj (Nat.le_refl _) (fun _ _ => trivial)
+  have pushNew : RootJumpPost b data (pushToJumpTable data (getInstructionLen data), getJumpTableLen data) := by
+    simp only [pushToJumpTable, getInstructionLen, getJumpTableLen]
+    exact ⟨hd.pushJ _, jOk_push hj' (Nat.le_refl _) (fun _ => trivial), by simp, by simp only [Array.size_push]; omega, rfl,
+      by simp⟩
+  unfold rootJump
+  dsimp only
+  split
+  · rename_i node hnode
+    split
+    · rename_i index hidx
+      split
+      · rename_i data' hset
+        unfold setJump? at hset
+        split at hset
+        · rename_i hlt
+          cases hset
+          simp only [sat_ok, getInstructionLen]
+          refine ⟨hd.setJ _ _ hlt, jOk_set hj' _ hlt trivial, by simpa using hlt, ?_, rfl, by simp⟩
+          rcases hfirst with h1 | ⟨bn, h1, h2⟩
+          · simpa using h1
+          · rw [hnode] at h1
+            cases h1
+            rw [hidx] at h2
+            cases h2
+        · cases hset
+      · exact sat_buildErr
+    · exact pushNew
+  · exact pushNew
+
+/-- one element of the `for end_instruction in end_instructions` loop -/
+def peStep (last : Option Instr) (rs : Nat) (d : BState F) (e : Instr) : BState F :=
+  match last with
+  | some instruction =>
+    if instruction = e ∧ e.1 = .endExpression ∧ getInstructionLen d > rs then d
+    else pushInstr d e.1 e.2 none
+  | none => pushInstr d e.1 e.2 none
+
+theorem pushEndInstructions_cons (last : Option Instr) (rs : Nat) (d : BState F) (e : Instr) (rest : List Instr) :
+    pushEndInstructions last rs d (e :: rest) = pushEndInstructions last rs (peStep last rs d e) rest := rfl
+
+theorem peStep_wf (last : Option Instr) (rs : Nat) (d : BState F) (e : Instr)
+    (hd : DataOk b d.instrs d.jumps d.consts d.metadata) (he : instrOk d.jumps.size d.consts e = true) :
+    DataOk b (peStep last rs d e).instrs (peStep last rs d e).jumps (peStep last rs d e).consts (peStep last rs d e).metadata ∧
+    (peStep last rs d e).jumps = d.jumps ∧ (peStep last rs d e).consts = d.consts ∧
+    d.instrs.size ≤ (peStep last rs d e).instrs.size ∧ (rs ≤ d.instrs.size → rs < (peStep last rs d e).instrs.size) := by
+  have hpush : DataOk b (pushInstr d e.1 e.2 none).instrs (pushInstr d e.1 e.2 none).jumps (pushInstr d e.1 e.2 none).consts
+      (pushInstr d e.1 e.2 none).metadata := by
+    simp only [pushInstr]
+    exact hd.pushI he rfl
+  unfold peStep
+  split
+  · split
+    · rename_i hc
+      exact ⟨hd, rfl, rfl, Nat.le_refl _, fun _ => hc.2.2⟩
+    · exact ⟨hpush, rfl, rfl, by simp [pushInstr], fun h => by simp only [pushInstr, Array.size_push]; omega⟩
+  · exact ⟨hpush, rfl, rfl, by simp [pushInstr], fun h => by simp only [pushInstr, Array.size_push]; omega⟩
+
+/-- `pushEndInstructions`: only instructions (with `None` metadata) are appended; at least one instruction exists
+    after `rootStart` afterwards (commit 3cee692) -/
+theorem pushEndInstructions_wf (last : Option Instr) (rs : Nat) : ∀ (l : List Instr) (d : BState F),
+    DataOk b d.instrs d.jumps d.consts d.metadata → (∀ e, e ∈ l → instrOk d.jumps.size d.consts e = true) →
+    DataOk b (pushEndInstructions last rs d l).instrs (pushEndInstructions last rs d l).jumps
+      (pushEndInstructions last rs d l).consts (pushEndInstructions last rs d l).metadata ∧
+    (pushEndInstructions last rs d l).jumps = d.jumps ∧
+    d.instrs.size ≤ (pushEndInstructions last rs d l).instrs.size ∧
+    (l ≠ [] → rs ≤ d.instrs.size → rs < (pushEndInstructions last rs d l).instrs.size) := by
+  intro l
+  induction l with
+  | nil => intro d hd _; exact ⟨hd, rfl, Nat.le_refl _, fun h => absurd rfl h⟩
+  | cons e rest ih =>
+    intro d hd he
+    rw [pushEndInstructions_cons]
+    obtain ⟨h1a, h1b, h1c, h1d, h1e⟩ := peStep_wf last rs d e hd (he e List.mem_cons_self)
+    have := ih (peStep last rs d e) h1a (fun x hx => by rw [h1b, h1c]; exact he x (List.mem_cons_of_mem _ hx))
+    obtain ⟨i1, i2, i3, _⟩ := this
+    refine ⟨i1, by rw [i2, h1b], by omega, fun _ hrs => ?_⟩
+    have := h1e hrs
+    omega
+
+theorem term_pushInstr (d : BState F) (e : Instr) (he : isTerminator e = true) : EndsInTerm (pushInstr d e.1 e.2 none) :=
+  ⟨e, by simp [pushInstr], he⟩
+
+theorem pushEndInstructions_append (last : Option Instr) (rs : Nat) : ∀ (init : List Instr) (d : BState F) (e : Instr),
+    pushEndInstructions last rs d (init ++ [e]) = peStep last rs (pushEndInstructions last rs d init) e := by
+  intro init
+  induction init with
+  | nil => intro d e; rfl
+  | cons x rest ih => intro d e; simp only [List.cons_append, pushEndInstructions_cons]; exact ih _ e
+
+/-- commit 7afc7c5: only an `EndExpression` already at the end may stand in for the terminator, so after the loop
+over a well-shaped terminator list the stream ends in a terminator -/
+theorem pushEndInstructions_term (rs : Nat) (d : BState F) {l : List Instr} (hl : EndShape l) :
+    EndsInTerm (pushEndInstructions d.instrs.back? rs d l) := by
+  rcases hl with hl | ⟨init, j, hl⟩
+  · subst hl
+    show EndsInTerm (peStep d.instrs.back? rs d (.endExpression, none))
+    unfold peStep
+    split
+    · rename_i instr hlast
+      split
+      · rename_i hc
+        exact ⟨instr, hlast, by rw [hc.1]; rfl⟩
+      · exact term_pushInstr d _ rfl
+    · exact term_pushInstr d _ rfl
+  · subst hl
+    rw [pushEndInstructions_append]
+    unfold peStep
+    split
+    · split
+      · rename_i hc
+        exact absurd hc.2.1 (by simp)
+      · exact term_pushInstr _ _ rfl
+    · exact term_pushInstr _ _ rfl
+
+theorem last_eq_back {α : Type} (a : Array α) : (if (a.size == 0) = true then none else a[a.size - 1]?) = a.back? := by
+  unfold Array.back?
+  split
+  · rename_i h
+    have : a.size = 0 := by simpa using h
+    simp [this]
+  · rfl
+
+theorem back_none_size {α : Type} {a : Array α} (h : a.back? = none) : a.size = 0 := by
+  rcases Nat.eq_zero_or_pos a.size with h0 | h0
+  · exact h0
+  · have : a.back? = some a[a.size - 1] := by
+      simp [Array.back?, Array.getElem?_eq_getElem (show a.size - 1 < a.size by omega)]
+    rw [this] at h; cases h
+
+theorem rootLoop_wf (parseTree : Array ParseNode) (hb : b.n = parseTree.size) :
+    ∀ (rootFuel stepFuel : Nat) (ctx : Ctx F), InvR b ctx →
+      Sat (fun c => InvR b c ∧ c.rootStack.back? = none) (Garnish.Model.Build.rootLoop parseFloat parseTree rootFuel stepFuel ctx) := by
+  intro rootFuel
+  induction rootFuel with
+  | zero => intro _ ctx _; exact sat_fuelOut
+  | succ k ih =>
+    intro stepFuel ctx h
+    unfold Garnish.Model.Build.rootLoop
+    split
+    · rename_i hnone; exact ⟨h, hnone⟩
+    · rename_i rootIndex hback
+      dsimp only
+      have hfirst : b.j0 < ctx.data.jumps.size ∨ ∃ bn, ctx.nodes[rootIndex]? = some (some bn) ∧ bn.jumpIndexToUpdate = none := by
+        rcases h.first with h1 | ⟨r, bn, h1, h2, h3⟩
+        · exact Or.inl h1
+        · rw [hback] at h1; cases h1; exact Or.inr ⟨bn, h2, h3⟩
+      refine sat_bind (rootJump_wf h.data h.jok h.jlo rootIndex hfirst) (fun r hr => ?_)
+      obtain ⟨data, crj⟩ := r
+      obtain ⟨r1, r2, r3, r4, r5, r6⟩ := hr
+      dsimp only at r1 r2 r3 r4 r5 r6 ⊢
+      -- the invariant of the inner loop, with rs = the instruction count now and jlo = max crj j0 + 1
+      have hmax : max ctx.data.jumps.size (b.j0 + 1) ≤ data.jumps.size := by omega
+      have hinv : InvH b (getInstructionLen data) (max crj b.j0 + 1)
+          ({ data := data, nodes := ctx.nodes, rootStack := ctx.rootStack.pop, stack := #[rootIndex] } : Ctx F) :=
+        ⟨r1, jOk_mono r2 (Nat.le_refl _) (fun _ _ => Or.inr rfl), nodesWF_mono hmax h.nodes, Nat.le_refl _, by
+          show max crj b.j0 + 1 ≤ data.jumps.size
+          omega⟩
+      refine sat_bind (innerLoop_wf parseFloat parseTree hb (by omega) stepFuel _ hinv) (fun r2 h2 => ?_)
+      obtain ⟨ctx2, fuel2⟩ := r2
+      dsimp only at h2 ⊢
+      -- the terminators
+      have key : ∀ (last : Option Instr) (endL : List Instr),
+          (∀ e, e ∈ endL → instrOk ctx2.data.jumps.size ctx2.data.consts e = true) → endL ≠ [] →
+          last = ctx2.data.instrs.back? → EndShape endL →
+          Sat (fun c => InvR b c ∧ c.rootStack.back? = none)
+            (Garnish.Model.Build.rootLoop parseFloat parseTree k fuel2
+              { ctx2 with data := pushEndInstructions last (getInstructionLen data) ctx2.data endL }) := by
+        intro last endL hend hne hlast hshape
+        have hterm : EndsInTerm (pushEndInstructions last (getInstructionLen data) ctx2.data endL) := by
+          rw [hlast]; exact pushEndInstructions_term _ _ hshape
+        obtain ⟨p1, p2, p3, p4⟩ := pushEndInstructions_wf (b := b) last (getInstructionLen data) endL ctx2.data h2.data hend
+        have p4' := p4 hne h2.rsLe
+        apply ih
+        have hj0 : b.j0 < ctx2.data.jumps.size := by
+          have := h2.jLe
+          omega
+        refine ⟨p1, ?_, ?_, Or.inl (by dsimp only; rw [p2]; exact hj0), by dsimp only; rw [p2]; omega, Or.inl hterm⟩
+        · dsimp only
+          rw [p2]
+          refine jOk_mono h2.jok p3 (fun heq hp => ?_)
+          rcases hp with hp | hp
+          · exact hp
+          · omega
+        · dsimp only
+          rw [p2]
+          exact nodesWF_mono (by omega) h2.nodes
+      refine key _ _ ?_ ?_ (last_eq_back _) ?_
+      rotate_left 2
+      · split
+        · rename_i node hnode
+          have hbn := h2.nodes.2 _ _ hnode
+          split
+          · rename_i l hl
+            exact (hbn.2.2 l hl).2.2
+          · exact Or.inl rfl
+        · exact Or.inl rfl
+      · intro e he
+        split at he
+        · rename_i node hnode
+          have hbn := h2.nodes.2 _ _ hnode
+          split at he
+          · rename_i l hl
+            exact instrOk_of_empty _ ((hbn.2.2 l hl).2.1 e he)
+          · simp only [List.mem_cons, List.mem_nil_iff, or_false] at he
+            subst he; simp [instrOk, opKind]
+        · simp only [List.mem_cons, List.mem_nil_iff, or_false] at he
+          subst he; simp [instrOk, opKind]
+      · split
+        · rename_i node hnode
+          have hbn := h2.nodes.2 _ _ hnode
+          split
+          · rename_i l hl
+            exact (hbn.2.2 l hl).1
+          · simp
+        · simp
+
+
+theorem allFrom_of_size_le {α : Type} {lo : Nat} {a : Array α} {P : α → Prop} (h : a.size ≤ lo) : AllFrom lo a P :=
+  fun i x hlo hx => absurd (getElem?_some_lt hx) (by omega)
+
+/-- the sizes of the start state and the number of parse nodes -/
+def baseOf (s0 : BState F) (n : Nat) : Base := ⟨s0.instrs.size, s0.consts.size, s0.jumps.size, s0.metadata.size, n⟩
+
+theorem buildCore_wf (fuel parseRoot : Nat) (parseTree : Array ParseNode) (s0 : BState F) (hs0 : WFState s0) :
+    Sat (fun r => WFCore parseTree.size s0 r.1 ∧ r.2 < r.1.jumps.size ∧ EndsInTerm r.1) (buildCore parseFloat fuel parseRoot parseTree s0) := by
+  unfold buildCore
+  dsimp only
+  unfold setNodeIdx
+  split
+  · rename_i hlt
+    simp only [bind_ok]
+    have hlt' : parseRoot < parseTree.size := by simpa using hlt
+    have hinv : InvR (baseOf s0 parseTree.size)
+        ({ data := s0, nodes := (Array.replicate parseTree.size none).set parseRoot
+            (some (BuildNode.new parseRoot (getJumpTableLen s0))) hlt, rootStack := #[parseRoot], stack := #[] } : Ctx F) := by
+      refine ⟨⟨allFrom_of_size_le (Nat.le_refl _), allFrom_of_size_le (Nat.le_refl _), hs0, allFrom_of_size_le (Nat.le_refl _)⟩,
+        allFrom_of_size_le (Nat.le_refl _), ⟨by simp [baseOf], ?_⟩, Or.inr ⟨parseRoot, BuildNode.new parseRoot (getJumpTableLen s0), by simp, by simp [hlt'], rfl⟩, Nat.le_refl _,
+        Or.inr ⟨parseRoot, by simp⟩⟩
+      intro i bn hi
+      rw [Array.getElem?_set] at hi
+      split at hi
+      · cases hi
+        exact bnWF_new hlt' (by simp [baseOf, getJumpTableLen])
+      · simp [Array.getElem?_replicate] at hi
+    refine sat_bind (rootLoop_wf parseFloat parseTree rfl fuel fuel _ hinv) (fun ctx hctx => ?_)
+    obtain ⟨hR, hnone⟩ := hctx
+    have hsz := back_none_size hnone
+    have hj0 : s0.jumps.size < ctx.data.jumps.size := by
+      rcases hR.first with h1 | ⟨r, bn, h1, _, _⟩
+      · exact h1
+      · rw [hnone] at h1; cases h1
+    split
+    · simp only [sat_ok]
+      have hterm : EndsInTerm ctx.data := by
+        rcases hR.term with h1 | ⟨r, h1⟩
+        · exact h1
+        · rw [hnone] at h1; cases h1
+      refine ⟨⟨hR.data.operands, hR.data.exprConsts, ?_, hR.data.metaCount, hR.data.metaNodes⟩, hj0, hterm⟩
+      intro i v hlo hv
+      obtain ⟨h1, h2⟩ := hR.jok i v hlo hv
+      rcases Nat.lt_or_ge v ctx.data.instrs.size with h3 | h3
+      · exact h3
+      · have := h2 (by omega)
+        omega
+    · exact sat_buildErr
+  · exact sat_panic
+
+theorem build_wfCore (fuel parseRoot : Nat) (parseTree : Array ParseNode) (s0 : BState F) (hs0 : WFState s0) :
+    Sat (fun r => WFCore parseTree.size s0 r.1 ∧ (parseTree.size ≠ 0 → r.2 < r.1.jumps.size) ∧ EndsInTerm r.1)
+      (build parseFloat fuel parseRoot parseTree s0) := by
+  unfold build
+  split
+  · rename_i hempty
+    simp only [sat_ok, pushInstr]
+    refine ⟨⟨allFrom_push (allFrom_of_size_le (Nat.le_refl _)) (by simp [instrOk, opKind]), allFrom_of_size_le (Nat.le_refl _),
+      allFrom_of_size_le (Nat.le_refl _), by simp [show s0.metadata.size = s0.instrs.size from hs0],
+      allFrom_push (allFrom_of_size_le (Nat.le_refl _)) rfl⟩, fun hne => ?_, ⟨(.endExpression, none), by simp, rfl⟩⟩
+    have : parseTree.size = 0 := by simpa [Array.isEmpty] using hempty
+    exact absurd this hne
+  · refine sat_bind (Q := fun _ => True) sat_true (fun _ _ => ?_)
+    exact sat_mono (buildCore_wf parseFloat fuel parseRoot parseTree s0 hs0) (fun r hr => ⟨hr.1, fun _ => hr.2.1, hr.2.2⟩)
 
 end handlersWF
+
+/-! ## C05 -/
+
+/-- "After a successful `build`, every data operand names an existing value of the kind its instruction expects, every
+jump operand and every expression value names an existing jump-table entry, every jump-table entry written by the build
+points at an existing instruction (no unpatched placeholder survives), and every straight-line run of instructions ends
+in an end-of-expression or an unconditional jump.  There is exactly one metadata record per emitted instruction and it
+names an existing parse node."
+
+`wfProg` (Spec/WFProg.lean) is the executable form of these clauses for the part of `s` appended to `s0`; the theorem
+holds for EVERY node vector, every fuel and every start state whose metadata is in step with its instructions
+(`WFState s0`), on the builder model that follows build.rs up to commit 7afc7c5.  The returned entry names an existing
+jump entry unless the node vector is empty (`build` then returns entry 0 without creating an entry). -/
+theorem C05_build_wf (parseFloat : List Char → Option F) (fuel root : Nat) (tree : Array ParseNode) (s0 s : BState F)
+    (entry : Nat) (h : build parseFloat fuel root tree s0 = .ok (s, entry)) (hs0 : WFState s0) :
+    wfProg tree.size s0 s = true ∧ (tree.size ≠ 0 → entry < s.jumps.size) := by
+  have := build_wfCore parseFloat fuel root tree s0 hs0
+  rw [h] at this
+  obtain ⟨h1, h2, h3⟩ := this
+  exact ⟨(wfProg_iff _ _ _).2 ⟨h1, h3⟩, h2⟩
+
+/-- the declarative form -/
+theorem C05_build_WFProg (parseFloat : List Char → Option F) (fuel root : Nat) (tree : Array ParseNode) (s0 s : BState F)
+    (entry : Nat) (h : build parseFloat fuel root tree s0 = .ok (s, entry)) (hs0 : WFState s0) :
+    WFProg tree.size s0 s :=
+  (wfProg_iff _ _ _).1 (C05_build_wf parseFloat fuel root tree s0 s entry h hs0).1
+
+/-- a build leaves the object in a state another build may start from -/
+theorem C05_wfState_preserved (parseFloat : List Char → Option F) (fuel root : Nat) (tree : Array ParseNode) (s0 s : BState F)
+    (entry : Nat) (h : build parseFloat fuel root tree s0 = .ok (s, entry)) (hs0 : WFState s0) : WFState s :=
+  (C05_build_WFProg parseFloat fuel root tree s0 s entry h hs0).metaCount
+
+/-- the remaining gap, for the record: with an EMPTY node vector `build` returns `jump_index = 0` without creating a
+jump entry, so `entry < s.jumps.size` can fail (first program) or name another program's entry (shared object) -/
+example : (build (F := Unit) (fun _ => none) 0 0 #[] BState.empty).isOk = true := by decide
 
 end Garnish.Props.C05
